@@ -5,6 +5,7 @@ package props
 import (
 	"fmt"
 	"sort"
+	"strings"
 	"sync"
 
 	stackage "github.com/JesseCoretta/go-stackage"
@@ -19,6 +20,99 @@ type C09Case struct {
 }
 
 // buildRich builds the receiver and decorates it with every kind of setting.
+func c09Foreign(mk func() any, isCond bool, st *Stats) *Violation {
+	names := []string{"native", "alias", "pointer", "pointer-to-alias"}
+	type step struct {
+		name string
+		deep bool
+		run  func(ro any, f any)
+	}
+	steps := []step{
+		{"Transfer(read-only as %s)", true, func(ro, f any) { stackage.Basic().Push("t1", "t2").Transfer(f) }},
+		{"IsEqual(read-only as %s)", true, func(ro, f any) { _ = stackage.And().Push("q").IsEqual(f) }},
+		{"self.Transfer(self as %s)", true, func(ro, f any) {
+			if s, ok := ro.(stackage.Stack); ok {
+				s.Transfer(f)
+			}
+		}},
+		// shallow from here on: what a parent's or holder's mutators do INSIDE a writable descendant of the
+		// read-only instance is that descendant's business (it can be reached through its own handle as well)
+		{"Push+Reveal+Defrag+Reverse+Reset on a parent holding it as %s", false, func(ro, f any) {
+			p := stackage.And().Push("p1", f, nil, "p2")
+			p.Reveal()
+			p.Defrag()
+			p.Reverse()
+			_ = p.String()
+			_, _ = p.Unmarshal()
+			p.Reset()
+		}},
+		{"single-member parent revealed (%s)", false, func(ro, f any) { stackage.Or().Push(stackage.And().Push(f)).Reveal() }},
+		{"Condition holding it as %s", false, func(ro, f any) {
+			c := stackage.Cond("holder", stackage.Eq, f)
+			_ = c.String()
+			c.SetExpression("other")
+			c.Free()
+		}},
+	}
+	for fi := range names {
+		for _, stp := range steps {
+			ro := mk()
+			var f any
+			if isCond {
+				c := ro.(stackage.Condition)
+				a := MyCond(c)
+				f = []any{c, a, &c, &a}[fi]
+			} else {
+				s := ro.(stackage.Stack)
+				a := MyStack(s)
+				f = []any{s, a, &s, &a}[fi]
+			}
+			shallow := func() string { return publicView(ro) + " cfg=" + fmt.Sprint(cfgOf(stackage.VerifDump(ro))) }
+			deepBase, shallowBase := Snapshot(ro), shallow()
+			name := fmt.Sprintf(stp.name, names[fi])
+			if p := guard(func() { stp.run(ro, f) }); p != "" {
+				return violf("foreign/panic", "%s panicked: %s", name, p)
+			}
+			if stp.deep {
+				if after := Snapshot(ro); after != deepBase {
+					return violf("foreign/"+fmt.Sprintf(stp.name, "*"), "%s changed the read-only instance: %s", name, diffSnap(deepBase, after))
+				}
+			} else if after := shallow(); after != shallowBase {
+				return violf("foreign/"+fmt.Sprintf(stp.name, "*"), "%s changed the read-only instance (own configuration / direct members): %s", name, diffSnap(shallowBase, after))
+			}
+		}
+	}
+	st.Class("read-only-as-argument-and-member")
+	return nil
+}
+
+// roAnswers: the answers of the identity-free queries (the read-only flag itself left out).
+func roAnswers(x any) string {
+	var b strings.Builder
+	p := guard(func() {
+		if s, ok := x.(stackage.Stack); ok {
+			fmt.Fprintf(&b, "Len=%d Kind=%s Cap=%d Avail=%d FIFO=%v Init=%v Empty=%v Full=%v CapReached=%v Paren=%v Padded=%v Encap=%v Nesting=%v CanNest=%v CanMutex=%v ID=%q Cat=%q Delim=%q LogLevels=%s Aux=%d Valid=%v String=%q",
+				s.Len(), s.Kind(), s.Cap(), s.Avail(), s.IsFIFO(), s.IsInit(), s.IsEmpty(), s.IsFull(), s.CapReached(), s.IsParen(), s.IsPadded(),
+				s.IsEncap(), s.IsNesting(), s.CanNest(), s.CanMutex(), s.ID(), s.Category(), s.Delimiter(), s.LogLevels(), s.Auxiliary().Len(), s.Valid() == nil, s.String())
+			u, e := s.Unmarshal()
+			fmt.Fprintf(&b, " Unmarshal=%d/%v", len(u), e)
+			for i := 0; i+1 < s.Len() && i < 4; i++ {
+				fmt.Fprintf(&b, " Less(%d,%d)=%v", i, i+1, s.Less(i, i+1))
+			}
+		} else if c, ok := x.(stackage.Condition); ok {
+			fmt.Fprintf(&b, "KW=%q Op=%v Len=%d Init=%v Paren=%v Padded=%v Encap=%v Nesting=%v CanNest=%v FIFO=%v ID=%q Cat=%q LogLevels=%s Aux=%d Valid=%v String=%q",
+				c.Keyword(), c.Operator(), c.Len(), c.IsInit(), c.IsParen(), c.IsPadded(), c.IsEncap(), c.IsNesting(), c.CanNest(), c.IsFIFO(), c.ID(), c.Category(),
+				c.LogLevels(), c.Auxiliary().Len(), c.Valid() == nil, c.String())
+			u, e := c.Unmarshal()
+			fmt.Fprintf(&b, " Unmarshal=%d/%v", len(u), e)
+		}
+	})
+	if p != "" {
+		fmt.Fprintf(&b, " PANIC(%s)", p)
+	}
+	return b.String()
+}
+
 func buildRich(n Node, rich bool) any {
 	x := BuildWith(n, BuildOpts{})
 	if !rich {
@@ -136,8 +230,33 @@ func runC09(c C09Case) (st Stats, err error) {
 	if !isRO() {
 		return st, violf(tname+".SetReadOnly", "SetReadOnly(true) did not set the flag")
 	}
+	// setting the flag changes nothing observable but the flag: every query answers as it does on the
+	// identically built twin that was left writable
+	if a, b := roAnswers(cur()), roAnswers(twin); a != b {
+		return st, violf(tname+"/read-only-changes-an-answer", "a query answers differently once the read-only flag is set: %s\n  read-only: %s\n  writable : %s", diffSnap(a, b), a, b)
+	}
 	base := Snapshot(cur())
 	baseNoErr := SnapshotNoErr(cur())
+
+	// ---- the read-only instance as an ARGUMENT of another instance's methods, in every form a Stack /
+	// Condition can be handed over (native, alias, pointer, pointer to alias), and as a nested member of
+	// a writable parent whose own mutators run: nothing observable on it may change either
+	if len(c.Calls) > 0 && c.Calls[0].Variant%4 != 0 {
+		// (24 fresh instances per case: done for a quarter of the cases)
+	} else if v := c09Foreign(func() any {
+		// (a fresh read-only instance per step: a step's legitimate effect on writable descendants must
+		// not be charged to the next one, nor to the calls below)
+		x := buildRich(c.Recv, c.Rich)
+		reject(x)
+		if cc, ok := x.(stackage.Condition); ok {
+			cc.SetReadOnly(true)
+		} else {
+			x.(stackage.Stack).SetReadOnly(true)
+		}
+		return x
+	}, isCond, &st); v != nil {
+		return st, v
+	}
 
 	for i, call := range c.Calls {
 		m, ok := findMethod(ms, call.Method)
@@ -397,7 +516,7 @@ func enumC09(tier Tier, yield func(C09Case)) {
 
 var c09RecvGen = TreeGen{MaxDepth: 2, MaxWidth: 4, Budget: 12, Kinds: stackKinds,
 	Leaf: func(t *rapid.T) Val { return genPrimVal(t, true, true) }, Conds: true, CondExprStack: true, NilLeaves: true, EmptyStacks: true,
-	Options: true, Caps: true, IndexOpts: true, MutexOpt: true, FIFOOpt: true, ZooLeaves: true, Ambient: true, WideRuns: true, NoNestAfter: true}
+	Options: true, Caps: true, IndexOpts: true, MutexOpt: true, FIFOOpt: true, ZooLeaves: true, OddEncap: true, Ambient: true, WideRuns: true, NoNestAfter: true}
 
 func genC09(t *rapid.T, tier Tier) C09Case {
 	c := C09Case{Rich: rapid.Bool().Draw(t, "rich"), Invalid: rapid.IntRange(0, 4).Draw(t, "invalid") == 0}
